@@ -11,7 +11,7 @@ _NATIVE = r'''
 import itertools, json, sys
 from pico8.game import compress
 from pico8.game.formatter import p8png
-sys.path.insert(0, %r)
+sys.path.insert(0, @VERIF@)
 TABLE = compress.COMPRESSED_LUA_CHAR_TABLE
 def ref_decode(stream):
     S = list(stream); T = []; i = 0
@@ -25,16 +25,48 @@ def ref_decode(stream):
             for _ in range(ln): T.append(T[len(T) - off])
             i += 2
     return bytes(T)
+def ref_decode_n(stream, n):
+    S = list(stream); T = []; i = 0
+    while len(T) < n:
+        c = S[i]
+        if c == 0: T.append(S[i+1]); i += 2
+        elif c <= 59: T.append(TABLE[c]); i += 1
+        else:
+            off, ln = (c - 60) * 16 + (S[i+1] & 15), (S[i+1] >> 4) + 2
+            assert 3 <= ln <= 17 and 1 <= off <= len(T), 'malformed block'
+            for _ in range(ln): T.append(T[len(T) - off])
+            i += 2
+    return bytes(T[:n])
 alpha = [ord('a'), ord('b'), 10, 0x80]        # table char, second table char (repeats), newline, non-table byte
 bad, n = [], 0
-for L in range(0, %d):
+for L in range(0, @L@):
     for t in itertools.product(alpha, repeat=L):
         x = bytes(t); n += 1
         comp = compress.compress_code(x)
         if ref_decode(comp) != x: bad.append([x.hex(), 'reference decoder disagrees'])
         area = bytes([58, 99, 58, 0, len(x) >> 8, len(x) & 255, 0, 0]) + bytes(comp) + bytes(4)
         if compress.decompress_code(area)[1] != x: bad.append([x.hex(), 'decompress_code disagrees'])
-print(json.dumps({'n': n, 'bad': bad[:5], 'n_bad': len(bad)}))
+# whole code areas through the real writer / reader pair: texts that do and do not mention _update60 (the compatibility suffix),
+# every kind of ending; an independent decoder reads the header length and the stream
+m = 0
+bodies = [b'y=y+1\n' * 40, b'function _update60()\n x=1\nend\n' + b'y=y+1\n' * 40, b'-- _update60\n' + b'print("aaaaaaaaaaaaaaaaaaaaaaaaaaaaaaaaaaaaaaaa")\n' * 8,
+          b'_update60' * 30, b'a' * 200 + b'_update60']
+for body in bodies:
+    for ending in (b'', b'\n', b'\n\n', b' ', b' \n', b'x', b'end', b'\t'):
+        x = body + ending; m += 1
+        area = bytes(p8png.get_bytes_from_code(x))
+        if area[:4] != b':c:\x00':
+            if area[:len(x)] != x or any(area[len(x):]): bad.append([x[-30:].hex(), 'raw code area is not the text followed by zero bytes'])
+        else:
+            ln = area[4] * 256 + area[5]
+            try:
+                got = ref_decode_n(area[8:], ln)
+            except Exception as e:
+                got = repr(e)
+            if got != x: bad.append([x[-30:].hex(), 'independent decoder (header length %d, text length %d) does not recover the text' % (ln, len(x))])
+        back = p8png.get_code_from_bytes(area + bytes(0x3d00 - len(area)), 8)[1]
+        if back != x: bad.append([x[-30:].hex(), 'get_code_from_bytes(get_bytes_from_code(text)) != text: ...%r' % back[-20:]])
+print(json.dumps({'n': n + m, 'areas': m, 'bad': bad[:5], 'n_bad': len(bad)}))
 '''
 
 
@@ -65,7 +97,7 @@ def run(tier, seed):
     # bounded stand-in (NOT counted as proved): the end-to-end composition, natively, with the reference decoder
     L = 9 if tier == 'thorough' else 7
     env = {'PYTHONPATH': source.REPO, 'PATH': '/usr/bin:/bin'}
-    r = subprocess.run([source.REAL_PY, '-c', _NATIVE % ('/verif', L)], capture_output=True, text=True, env=env, cwd='/')
+    r = subprocess.run([source.REAL_PY, '-c', _NATIVE.replace('@VERIF@', repr('/verif')).replace('@L@', str(L))], capture_output=True, text=True, env=env, cwd='/')
     if r.returncode != 0:
         chk.violation('BOUNDED:c05/native compress->reference decoder / decompress_code',
                       {'solver_output': 'real code raised: ' + r.stderr[-800:]}, True)
@@ -74,7 +106,8 @@ def run(tier, seed):
         d = json.loads(r.stdout)
         chk.bounded = {'rule': 'BOUNDED stand-in for the composition of the contracts: all strings over {table char, second table '
                                'char, newline, non-table byte} up to length %d through the real compress_code, an independent '
-                               'reference decoder and the real decompress_code' % (L - 1),
+                               'reference decoder and the real decompress_code; plus %d whole code areas (texts with / without _update60 x 8 endings) through the real '
+                               'get_bytes_from_code, an independent header+stream decoder and the real get_code_from_bytes' % (L - 1, d.get('areas', 0)),
                        'bound': L - 1, 'evaluations': d['n'], 'failures': d['n_bad']}
         if d['n_bad']:
             chk.violation('BOUNDED:c05/native compress->reference decoder / decompress_code', {'witness': d['bad']}, True)
